@@ -36,6 +36,9 @@ func (u *ActiveUser) CloseSession(sessionID uint32, reason string) {
 		sesh.Close()
 	}
 	remaining := len(u.sessions)
+	// the decision to terminate is taken here: from now on GetSession must not add a session to this record
+	// (it would be closed by the termination below), the dispatcher looks the user up again instead
+	u.retired = u.retired || remaining == 0
 	u.sessionsM.Unlock()
 	if remaining == 0 {
 		common.VerifPoint("ActiveUser.CloseSession:beforeTerminate")
